@@ -33,8 +33,10 @@ Tie (this file): real `SquareLoss` objects on catalogue models (SIR, SEIR, SIR_n
    another theta, another loss object on the same ode evaluated in between, a `copy.deepcopy` of the loss object that is
    evaluated and then moved elsewhere.  EVERY evaluation is judged against the direct oracle for the state current at
    that moment (initial state, non-target parameters), all returned arrays are KEPT and compared at the end with the
-   copies taken when they were returned, and the arrays the caller handed in (theta, x0, y, t, weights, the sensitivity
-   array given to `sens_to_jtj`) must be unchanged.  In the Lean model `sensToJtj`, `hessian` and `odeAndForwardForward`
+   copies taken when they were returned.  Arrays the caller handed in (theta, x0, y, t, weights) that come back changed are
+   TAGGED `input-modified:*` (a side effect alone is not a violation of C20); `sens_to_jtj` - the accumulator the property
+   names - is called twice on one caller-owned array and BOTH values are judged against the oracle (as found it scaled the
+   array in place, so the second value had the weights applied twice: repaired by `fix:` 06ea049).  In the Lean model `sensToJtj`, `hessian` and `odeAndForwardForward`
    are pure functions of their explicit arguments (weights, the integrated sensitivity rows, residuals): there is no
    instance state, so "a second call with the same arguments returns the same matrix, whatever happened in between" holds
    by construction of the model (`C20.jtj_entry` / `C20.hessianH_entry` give every entry as a function of those arguments
@@ -437,7 +439,7 @@ def _run_session(case, sess, ops, L, model, SquareLoss, cx, viol, tags):
                 if isinstance(out_.get(k), np.ndarray):
                     keep.append([label + "[%s]" % k, out_[k], np.array(out_[k], dtype=float, copy=True)])
         if argc is not None and not np.array_equal(np.array(arg, dtype=float), argc):
-            report("%s wrote into the theta it was given" % fn, "caller-array-modified:theta", "form %s" % form)
+            tags.append("input-modified:theta")          # a side effect alone is not a violation of C20
         if orc is None or not first_ok.get(fam, False) or (fam == "hessian" and orc.get("H") is None):
             tags.append("session:not-judged:" + ("no-oracle" if orc is None or (fam == "hessian" and orc.get("H") is None) else "first-evaluation-already-reported"))
             return M
@@ -563,7 +565,7 @@ def _run_session(case, sess, ops, L, model, SquareLoss, cx, viol, tags):
     # ---- the caller's own arrays
     for name, (objv, cp) in cx["given"].items():
         if not np.array_equal(np.array(objv, dtype=float), cp):
-            report("the %s handed to the constructor was modified" % name, "caller-array-modified:" + name, "")
+            tags.append("input-modified:" + name)         # side effect: a tag (every judged value above was checked on its own)
 
 
 def run_case(case):
@@ -975,14 +977,23 @@ def run_case(case):
             except Exception as exc:
                 viol.append({"what": "%s raised %s: %s" % (nm, type(exc).__name__, str(exc)[:160]), "signature": nm + ":raises", "detail": ""})
                 continue
-            if A_.shape != ref_.shape or not close_arr(A_, ref_, 0, tol_):
-                viol.append({"what": "%s(sens) of the integrated sensitivities differs from the direct oracle" % nm, "signature": nm + ":value",
+            # "do not demand more than the property states": a VIOLATION only when the function the property names
+            # (mechanism anchor BaseLoss.sens_to_jtj) RETURNS A WRONG VALUE; a changed argument alone, and everything about
+            # sens_to_grad (C07's function), is a tag
+            wrong1 = A_.shape != ref_.shape or not close_arr(A_, ref_, 0, tol_)
+            wrong2 = B_.shape != ref_.shape or not close_arr(B_, ref_, 0, tol_)
+            if changed:
+                tags.append("input-modified:%s-argument" % nm)
+            if nm == "sens_to_jtj" and wrong1:
+                viol.append({"what": "sens_to_jtj(sens) of the integrated sensitivities differs from the direct oracle", "signature": nm + ":value",
                              "detail": worst(A_, ref_) if A_.shape == ref_.shape else "shape %s" % (A_.shape,)})
-            elif changed or not close_arr(B_, ref_, 0, tol_):
-                viol.append({"what": "%s(sens) multiplies the caller's sensitivity array by the weights IN PLACE: the array handed in is changed and a second "
-                                     "call with the same array returns another value (weights applied twice)" % nm,
+            elif nm == "sens_to_jtj" and wrong2:
+                viol.append({"what": "sens_to_jtj(sens) called a second time with the same caller-owned array returns another, wrong value: the first "
+                                     "call multiplied the array by the weights IN PLACE (weights applied twice)",
                              "signature": nm + ":argument-modified", "detail": "second call: " + worst(B_, ref_) + " weights=%s" % case.get("wkind")})
-            else:
+            elif wrong1 or wrong2:
+                tags.append("%s:wrong-value-on-%s-call(not judged here)" % (nm, "first" if wrong1 else "second"))
+            elif not changed:
                 tags.append(nm + ":argument-unchanged")
 
     # ---- the session: call histories on the one live object, kept results, forms of theta (see the module docstring).
